@@ -12,8 +12,11 @@ What the translator is TOLD (everything else is derived from the AST, anything n
 generated file is replaced by one that does not compile -> every property whose cone contains the bridge reports the
 obligation as broken):
   * UNOBSERVED: attributes of self whose assignment is not part of the model (no step is generated);
-  * `self.downstreams` is the live set of downstream nodes: only `len(..)` and `list(..)` of it are accepted, both read
-    the parameter `downstreams : world -> list nat` at the point of evaluation (iterating the live set directly is refused);
+  * `self.downstreams` is the live set of downstream nodes: only `len(..)`, `list(..)` of it and the membership test
+    `<loop variable> in / not in self.downstreams` are accepted, all read the parameter `downstreams : world -> list nat`
+    at the point of evaluation (iterating the live set directly is refused);
+  * `continue` is accepted only where harness/pynorm.py can turn it into an if / else at the top level of the loop body
+    (`if c: [C;] continue` followed by B = `if c: C else: B`); any other `continue` is refused;
   * `<downstream>.update(x, who=self, metadata=m)` is the parameter `call_update : nat -> world -> val -> md -> world * status`;
   * the argument `metadata=None` of `_emit` is `a list or None`, represented by a Coq list (None = []): only uses that do
     not tell the two apart are accepted (truthiness; after `if metadata:` it is a list in the true branch);
@@ -40,7 +43,7 @@ UNOBSERVED = ("current_value", "current_metadata")
 RESERVED = {"fun", "let", "in", "end", "match", "with", "if", "then", "else", "at", "as", "return", "fix", "forall", "exists",
             "do", "wret", "wbind", "wrd", "wmod", "wlift", "wfor", "wcall", "wrun", "wworld", "aw", "aws", "aws_nil",
             "aws_extend", "aws_append", "aws_drop_none", "aw_is_list", "md_truthy", "mdi_has_ref", "mdi_ref", "rc_retain",
-            "rc_release", "downstreams", "call_update", "length", "world", "status", "val", "md", "mdi", "nat", "Z", "tt",
+            "rc_release", "downstreams", "call_update", "node_in", "length", "world", "status", "val", "md", "mdi", "nat", "Z", "tt",
             "unit", "bool", "true", "false", "list", "self", "retain", "release", "push", "deliver", "log", "cnt", "sts",
             "fired", "update", "map", "fst", "snd", "negb", "andb", "orb"}
 
@@ -221,6 +224,16 @@ class WorldTr:
                 self.err("`'ref' in` a %s" % (ty,), e)
             r = "(mdi_has_ref %s)" % t
             return (("(negb %s)" % r) if isinstance(op, ast.NotIn) else r, "bool")
+        if isinstance(op, (ast.In, ast.NotIn)) and self.self_attr(b) == "downstreams":
+            # <downstream> in self.downstreams: membership in the live set, read NOW (a step: the set may have changed
+            # since the snapshot the loop walks was taken)
+            if not isinstance(a, ast.Name):
+                self.err("membership in self.downstreams of something that is not a local: %s" % ast.unparse(a), e)
+            t, ty = self.ex(a, env, binds)
+            if ty != "node":
+                self.err("membership in self.downstreams of a %s" % (ty,), e)
+            v = self.bind(binds, "wrd (fun w_ => node_in %s (downstreams w_))" % t, "b")
+            return (("(negb %s)" % v) if isinstance(op, ast.NotIn) else v, "bool")
         if isinstance(op, (ast.Is, ast.IsNot)) and ast.unparse(b) == "list" and isinstance(a, ast.Call) \
                 and isinstance(a.func, ast.Name) and a.func.id == "type" and len(a.args) == 1 and not a.keywords:
             t, ty = self.ex(a.args[0], env, binds)
